@@ -129,9 +129,32 @@ class AttrCollector(html.parser.HTMLParser):
     handle_startendtag = handle_starttag
 
 
+CURRENT_ALLOW = None      # the allow-list in force when the application has narrowed urls.ACCEPTABLE_URI_SCHEMES (None: the shipped one)
+
+
 def scheme_ok(u):
     s = whatwg_scheme(u)
-    return s is None or s in REF_SCHEMES
+    return s is None or s in (REF_SCHEMES if CURRENT_ALLOW is None else CURRENT_ALLOW)
+
+
+class narrowed:
+    """the documented run-time setting: assign a narrower tuple to feedparser.urls.ACCEPTABLE_URI_SCHEMES (after the library has been used with the shipped list)"""
+    def __init__(self, allow):
+        self.allow = tuple(allow)
+
+    def __enter__(self):
+        global CURRENT_ALLOW
+        import feedparser.urls as U
+        self.saved = U.ACCEPTABLE_URI_SCHEMES
+        U.make_safe_absolute_uri("http://warm.example/", "x")          # the history: at least one check under the shipped list
+        U.ACCEPTABLE_URI_SCHEMES = self.allow
+        CURRENT_ALLOW = set(self.allow)
+
+    def __exit__(self, *a):
+        global CURRENT_ALLOW
+        import feedparser.urls as U
+        U.ACCEPTABLE_URI_SCHEMES = self.saved
+        CURRENT_ALLOW = None
 
 
 def obf_class(raw):
@@ -323,17 +346,44 @@ def search(ctx, focus=None):
         docs += 1
         distinct.add((doc, str(headers), sanitize, resolve))
         failures += check_doc(doc, headers, sanitize, resolve)
+    # (iii) the allow-list is a run-time setting: narrowed AFTER the library has been used, schemes that were dropped must be filtered from then on
+    for allow in (("http", "https"), ("https",), ("http", "https", "mailto"), ("ftp", "http")):
+        with narrowed(allow):
+            for _ in range(ctx.n(40, 600)):
+                sch = rng.choice(sorted(REF_SCHEMES))
+                ref = "%s:%s" % (sch if rng.random() < 0.7 else sch.upper(), rng.choice(["//host.example/p", "x", "///etc/passwd", "a@b.example", "//h/?q=1"]))
+                one = rng.random() < 0.4
+                n += 1
+                distinct.add((ref, one, allow))
+                f = check_helper(ref if one else "http://base.example/d/", None if one else ref, one)
+                if f:
+                    f.key = ["helper", "narrowed-allow-list", "one-arg" if one else "two-arg"]
+                    f.witness = dict(f.witness, allow=list(allow))
+                    failures.append(f)
+            for _ in range(ctx.n(6, 60)):
+                sch = rng.choice(sorted(REF_SCHEMES - set(allow)))
+                markup = '<p><a href="%s://h.example/x">l</a> <img src="%s:y"></p>' % (sch, sch)
+                doc = build_doc(rng, "atom", "escaped", markup, "http://base.example/dir/", rng.choice([None, "%s://xb.example/" % sch]))
+                n += 1
+                distinct.add((doc, allow))
+                for f in check_doc(doc, {"content-location": "http://base.example/dir/"}, True, True):
+                    f.key = ["result", "narrowed-allow-list"] + f.key[1:2]
+                    f.witness = dict(f.witness, allow=list(allow))
+                    failures.append(f)
     return {"evaluations": n, "distinct_nontrivial": len(distinct), "failures": failures,
             "rule": "helper: (base, reference) pairs = scheme {allow-listed, not, near-miss} x case x leading/trailing C0/space/Unicode-space x interior TAB/LF/CR x ':' spelling, "
                     "one- and two-argument forms, bases absolute/relative/opaque/unsafe/invalid; end to end: every (element, URI attribute) of the resolver table "
                     "x obfuscated URI values x {escaped, CDATA, content:encoded, inline XHTML} x RSS/Atom x base/xml:base/Content-Location x sanitize x resolve; "
-                    "oracle = independent WHATWG scheme states on the returned value / on attribute values decoded by html.parser; distinct = distinct inputs "
+                    "the allow-list narrowed at run time after the library was used (four narrower lists x URIs of every shipped scheme, helper and end to end); oracle = independent WHATWG scheme states on the returned value / on attribute values decoded by html.parser; distinct = distinct inputs "
                     "(every input carries a scheme-like prefix, so all are non-trivial)",
             "samples": [{"base": "http://a/b/c?q#f", "rel": " JaVa\tScRiPt:alert(1)"}, {"markup": '<a href="&#106;avascript:alert(1)">', "embed": "escaped", "fmt": "rss"}],
             "distribution": {"helper_pairs": len(todo), "documents": docs}}
 
 
 def replay(w):
+    if w.get("allow"):
+        with narrowed(w["allow"]):
+            return replay({k: v for k, v in w.items() if k != "allow"})
     if "doc" in w:
         fs = check_doc(w["doc"], w["headers"], w["sanitize"], w["resolve"])
         return (bool(fs), fs[0].what if fs else "no URI with a non-allow-listed scheme in the result")
